@@ -169,6 +169,7 @@ def run_history(case, stats, scoped=None):
 
     async def main():
         handles = [A.borrow(under)]
+        self_closed = set()  # handles whose own wrapper was certainly closed
         own = ["open"]  # state of each handle itself
         parent = [None]  # index of the handle it was borrowed from (None: the underlying iterator)
 
@@ -186,7 +187,11 @@ def run_history(case, stats, scoped=None):
                 return seen
 
             def __setitem__(self, h, value):
+                if own[h] == "closed":
+                    return  # closed is permanent
                 own[h] = value
+                if value == "closed":
+                    self_closed.add(h)
 
         state = _State()
 
@@ -226,7 +231,7 @@ def run_history(case, stats, scoped=None):
                 h = op[1] if op[1] < len(handles) else 0
                 if kind == "asend" and not has_asend:
                     continue
-                if kind == "asend" and own[h] == "open" and state[h] != "open":
+                if kind == "asend" and h not in self_closed and state[h] != "open":
                     # asend of a view whose *parent* handle was closed: not fixed by the property
                     try:
                         await handles[h].asend(None)
